@@ -1034,6 +1034,19 @@ class Engine:
                 break
         return [(s, NORMAL) for s in cur] + done
 
+    def s_DoStmt(self, n, st):
+        # only the macro idiom `do { ... } while (0)` (Py_VISIT, EXPECT_*): the body runs exactly once
+        body, cond = n.c[0], n.c[1]
+        lit = next((d for d in self.walk(cond) if d.k == 'IntegerLiteral'), None)
+        if lit is None or str(lit.get('v')) != '0':
+            raise Unsupported('do-while loop with a non-constant condition')
+        outs = []
+        for s, o in self.ex(body, st):
+            if o == ('break',) or o == ('continue',):
+                o = NORMAL
+            outs.append((s, o))
+        return outs
+
     def s_NullStmt(self, n, st):
         return [(st, NORMAL)]
 
@@ -1679,6 +1692,11 @@ class Engine:
         self.loop_ids = getattr(self, 'loop_ids', {})
         k = 0
         for d in self.walk(fn):
+            if d.k == 'DoStmt':
+                # the macro idiom `do { ... } while (0)` is not a loop
+                lit = [x for x in self.walk(d.c[1])] if len(d.c) > 1 else []
+                if any(x.k == 'IntegerLiteral' and str(x.get('v')) == '0' for x in lit) and len(lit) <= 2:
+                    continue
             if d.k in ('ForStmt', 'WhileStmt', 'CXXForRangeStmt', 'DoStmt'):
                 self.loop_ids[id(d)] = k
                 k += 1
